@@ -63,6 +63,8 @@ def execBody (callFn : CallFn) :
   -- a function literal held in a variable is an ordinary function value: when deferred it is a deferred function
   | .deferVar f x k, a, ctx, outer, act, w => execBody callFn k a ctx outer (push (.held f) (evalArg x a act) act) w
   | .deferBin s x k, a, ctx, outer, act, w => execBody callFn k a ctx outer (push (.bin s) (evalArg x a act) act) w
+  -- `defer f(xs...)`: xs is the list of variadic arguments, as in an ordinary call
+  | .deferBinSpread s ns k, a, ctx, outer, act, w => execBody callFn k a ctx outer (push (.bins s ns true) 0 act) w
   | .deferDel t k, a, ctx, outer, act, w => execBody callFn k a ctx outer (push (.del t) 0 act) w
   -- `defer panic(v)`: the builtin is a function like any other â€” v is evaluated now, the panic is raised when
   -- the deferred calls run
@@ -91,6 +93,7 @@ def runDefers (callFn : CallFn) : List Entry â†’ Option Val â†’ Int â†’ World â†
     let n := e.arg.get res
     match e.callee with
     | .bin s => runDefers callFn es cur res (w.emit (.bin s n))
+    | .bins s ns sp => runDefers callFn es cur res (w.emit (.bins s ns sp))
     | .del t => runDefers callFn es cur res { w with deleted := t :: w.deleted }
     | .pan v => runDefers callFn es (some v) res w           -- the new panic replaces the current one
     | .src c =>
